@@ -452,8 +452,9 @@ func (c *Conn) loadSession(hello *clientHelloMsg) (
 	// protect the application from a faulty ClientSessionCache implementation.
 	// [UTLS SECTION START]
 	if !c.config.InsecureSkipTimeVerify {
-		if c.config.time().After(session.peerCertificates[0].NotAfter) {
-			// Expired certificate, delete the entry.
+		if len(session.peerCertificates) == 0 || c.config.time().After(session.peerCertificates[0].NotAfter) {
+			// Expired certificate (or a forged session without one, which
+			// cannot be checked), delete the entry.
 			c.config.ClientSessionCache.Put(cacheKey, nil)
 			return nil, nil, nil, nil
 		}
@@ -472,6 +473,9 @@ func (c *Conn) loadSession(hello *clientHelloMsg) (
 			dnsName = c.config.InsecureServerNameToVerify
 		}
 		if len(dnsName) > 0 {
+			if len(session.peerCertificates) == 0 {
+				return nil, nil, nil, nil
+			}
 			if err := session.peerCertificates[0].VerifyHostname(dnsName); err != nil {
 				return nil, nil, nil, nil
 			}
